@@ -160,12 +160,13 @@ fn wellformed(rng: &mut Rng) -> Vec<String> {
             let mut u = v(&["go"]);
             let n = rng.range(1, 4);
             for _ in 0..n {
-                let k = *rng.pick(&["depth", "nodes", "movetime", "wtime", "btime", "winc", "binc"]);
+                let k = *rng.pick(&["depth", "nodes", "movetime", "wtime", "btime", "winc", "binc", "wtime", "btime", "movestogo", "mate"]);
                 u.push(k.into());
                 u.push(match k {
                     "depth" => rng.range(1, 3),
                     "nodes" => rng.range(1, 1500),
                     "movetime" => rng.below(5),
+                    "movestogo" | "mate" => *rng.pick(&[0, 0, 1, 2, 40]),
                     _ => rng.below(100),
                 }
                 .to_string());
